@@ -43,7 +43,7 @@ var props = map[string]*propMeta{
 		},
 	},
 	"C19": {
-		level: "exploration", driver: true, quickBudget: 100, thoroughBudget: 1500, stall: 15,
+		level: "exploration", driver: true, quickBudget: 100, thoroughBudget: 1500, stall: 30,
 		rule: "A case = (script rich in hash literals incl. keys whose printed forms coincide and duplicate keys, keys(), foreach over hashes, string()/sprintf of containers, several functions; 1-3 host objects with nested maps; optimizer flag) executed as Prepare, runs, second Prepare, one more run. " +
 			"It is executed under the canonical ascending order of every map the library ranges over (7 sites found by the rewriter), again under the same order on a fresh evaluator (other addresses), then under descending order, two rotations, two seeded per-call shuffles and ALL 23 non-identity permutations (exhaustive for maps of <= 4 entries), and twice under Go's native randomised order. " +
 			"Compared: the prepared program as Dump prints it (constants with types, main bytecode, functions sorted by name), every result, host-call trace, final variables, the program and the result after the second Prepare. A divergence is attributed to a single map-range site when varying that site alone reproduces it. " +
@@ -109,7 +109,7 @@ var props = map[string]*propMeta{
 		},
 	},
 	"C09": {
-		level: "fault_enumeration", driver: true, quickBudget: 100, thoroughBudget: 1500, stall: 14,
+		level: "fault_enumeration", driver: true, quickBudget: 100, thoroughBudget: 1500, stall: 30,
 		rule: "A case = (looping shape from a fixed catalogue or a generated script in a loop wrapper, optimizer flag, front end Run/Execute, cancellation plan). " +
 			"Enumerated part: for every catalogue shape and both optimizer settings, cancellation at EVERY simulated clock value 0..K (K=260 quick, 5000 thorough, 1500 for recursive shapes), already-expired, and cancellation from inside host call 1..12. " +
 			"Random part: seeded (VERIF_SEED) shapes/plans incl. large clock values and slow host functions. " +
